@@ -367,7 +367,7 @@ def parse_contracts(path):
             if s == "prologue:":
                 mode = "prologue"
                 continue
-            m = re.match(r"ghost\s+(after\s+let|wrap\s+selfcall|loop_pre|loop_tail)\s*#(\d+)(?:\s+as\s+(\w+))?\s*:$", s)
+            m = re.match(r"ghost\s+(after\s+let(?:\s+\w+)?|wrap\s+selfcall|wrap\s+method\s+\w+|loop_pre|loop_tail)\s*#(\d+)(?:\s+as\s+(\w+))?\s*:$", s)
             if m:
                 g = {"kind": " ".join(m.group(1).split()), "k": int(m.group(2)), "name": m.group(3) or "", "text": ""}
                 cur.ghosts.append(g)
@@ -583,6 +583,46 @@ def find_selfcalls(body):
     return out
 
 
+def find_methodcalls(body, name):
+    """(start_idx, close_paren_idx) of every `<receiver chain>.name(`...`)` call in source order"""
+    out = []
+    sg = [i for i, t in enumerate(body) if t.kind not in L.TRIVIA]
+    for p, i in enumerate(sg):
+        t = body[i]
+        if not (t.kind == "ident" and t.text == name):
+            continue
+        if not (p > 0 and body[sg[p - 1]].kind == "punct" and body[sg[p - 1]].text == "."):
+            continue
+        if not (p + 1 < len(sg) and body[sg[p + 1]].kind == "punct" and body[sg[p + 1]].text == "("):
+            continue
+        # walk back over the receiver: ident (. ident | :: ident | (...) | [...])*
+        q = p - 2
+        while q >= 0:
+            tt = body[sg[q]]
+            if tt.kind == "punct" and tt.text in (")", "]"):
+                d = 0
+                while q >= 0:
+                    x = body[sg[q]]
+                    if x.kind == "punct" and x.text in (")", "]"):
+                        d += 1
+                    elif x.kind == "punct" and x.text in ("(", "["):
+                        d -= 1
+                        if d == 0:
+                            break
+                    q -= 1
+                q -= 1
+                continue
+            if tt.kind == "ident":
+                if q > 0 and body[sg[q - 1]].kind == "punct" and body[sg[q - 1]].text in (".", "::"):
+                    q -= 2
+                    continue
+                break
+            break
+        start = sg[max(q, 0)]
+        out.append((start, L.match_close(body, sg[p + 1])))
+    return out
+
+
 def split_signature(ftoks, fn_kw, body_open):
     """ftoks[fn_kw] is `fn`. returns dict of index ranges: ret=(a,b) tokens of the return type
     (or None), where=(a,b) or None"""
@@ -664,10 +704,11 @@ def emit_fn(em, fid, ftoks, fn_kw, body_open, body_close, contract, indent="    
         em.clause(f"{fid}::prologue", _indent_block(c.prologue.rstrip("\n"), indent + "    "))
         em.w(f"{indent}    {A_CLOSE}")
     if c is not None and c.external_body:
-        # body kept verbatim (it is the real one) but not verified
-        pass
-    # annotate closures and loops inside the body
-    em.w(_annotate_body(em, fid, body, c, indent))
+        # assumed contract: the body is neither verified nor compiled; it is dropped from the unit
+        em.w(f" {A_OPEN}unimplemented!() /* body not under contract: assumed */{A_CLOSE} ")
+    else:
+        # annotate closures and loops inside the body
+        em.w(_annotate_body(em, fid, body, c, indent))
     em.w("}\n")
     em.fn_lines.append((first_line, em.line - 1, fid))
 
@@ -736,7 +777,19 @@ def _annotate_body(em, fid, body, c, indent):
         calls = find_selfcalls(body)
         for gi, g in enumerate(c.ghosts):
             k = g["k"]
-            if g["kind"] == "after let":
+            if g["kind"].startswith("after let ") :
+                nm = g["kind"].split()[2]
+                named = []
+                for (li, lj) in lets:
+                    q = li + 1
+                    while body[q].kind in L.TRIVIA or (body[q].kind == "ident" and body[q].text == "mut"):
+                        q += 1
+                    if body[q].kind == "ident" and body[q].text == nm:
+                        named.append((li, lj))
+                if k >= len(named):
+                    raise ExtractError(f"{fid}: ghost anchor `let {nm}`#{k} but the body has {len(named)} such let statements (lost anchor)")
+                ins_after.setdefault(named[k][1], []).append(("ghost", (gi, g)))
+            elif g["kind"] == "after let":
                 if k >= len(lets):
                     raise ExtractError(f"{fid}: ghost anchor let#{k} but the body has {len(lets)} let statements (lost anchor)")
                 ins_after.setdefault(lets[k][1], []).append(("ghost", (gi, g)))
@@ -745,6 +798,12 @@ def _annotate_body(em, fid, body, c, indent):
                     raise ExtractError(f"{fid}: ghost anchor selfcall#{k} but the body has {len(calls)} self calls (lost anchor)")
                 ins_before.setdefault(calls[k][0], []).insert(0, ("raw", f"{A_OPEN}{{ let {g['name']} = {A_CLOSE}"))
                 ins_after.setdefault(calls[k][1], []).append(("wrapclose", (gi, g)))
+            elif g["kind"].startswith("wrap method "):
+                mc = find_methodcalls(body, g["kind"].split()[2])
+                if k >= len(mc):
+                    raise ExtractError(f"{fid}: ghost anchor {g['kind']}#{k} but the body has {len(mc)} such calls (lost anchor)")
+                ins_before.setdefault(mc[k][0], []).insert(0, ("raw", f"{A_OPEN}{{ let {g['name']} = {A_CLOSE}"))
+                ins_after.setdefault(mc[k][1], []).append(("wrapclose", (gi, g)))
             elif g["kind"] == "loop_pre":
                 if k >= len(loops):
                     raise ExtractError(f"{fid}: ghost anchor loop#{k} but the body has {len(loops)} loops (lost anchor)")
